@@ -190,6 +190,8 @@ def drive(recipe):
         return t
     f = api(what, L)
     t["b"] = observe(lambda: f(arr))
+    if t["b"]["exc"] == "" and not np.array_equal(arr, to_array(c)):
+        t["b"]["exc"] = "ArgumentMutated"             # the caller's coefficient array must come back untouched
     if what == "Power" and recipe["vec"]["cls"] == "herm" and L >= 1:
         t["herm"] = True
         t["cr"] = [c[idx_cplx(l, m)] for (l, m) in real_order(L)]
